@@ -10,6 +10,7 @@ TRUSTED_BASE = [
     "protocol writers' WriteAt back-patching of placeholders is modelled by the final field values; sizeOfUnsignedVarInt's (bits.Len64(x|1)+6)/7 is modelled as the shift-loop count (both checked byte-exactly on every run, not proved equal)",
     "Go stdlib hash/crc32 is modelled by the bitwise reflected CRC of coq/Lib/Crc.v (compared on every case, not verified); time.Time by int64 nanoseconds (the zero time.Time, replaced by time.Now() in Conn, is outside the model)",
     "coq/Model/Pages.v: protocol/buffer.go's pages, buffers and refs as an atomic-step transition system (each refc update / pool Get/Put one step; sync.Pool may forget pages); the harness translates what the real pageBuffer did (through /repo/protocol/verif_export_c05.go) into these steps and compares refcounts and the bytes read through every ref; real interleavings finer than one step (the window between the atomic decrement to 0 and pagePool.Put) are exercised only by the concurrent stress op; pageBuffer.Write's splitting (pg) and pageBuffer.ReadFrom's refill loop (pgr: the real ReadFrom through the hook, readers with arbitrary chunkings, zero-length reads, (n>0, err) returns and failing readers, against the extracted pb_read_from with a digest of page ids, offsets, lengths, content hash and refcounts after every operation) are both driven directly",
+    "the writers are pure functions in the model (the produced bytes are a value); the code's pooled scratch buffers and compressors on the produce side (bufferPool of write.go/recordbatch.go, codec writer pools, protocol page buffers) are tied only dynamically: concurrent-producer rounds (2-4 real Conns over slow in-memory peers that park a producer in the middle of flushing its batch while the others compress and write, batches below and above the 4 KiB write buffer, every codec; goroutines calling RecordSet.WriteTo concurrently) under GOMAXPROCS 1, 2, 8, every output decoded by the reference decoder, compared with that producer's input and byte-exact with the model; only the executed interleavings are covered",
     "ocaml/kvio.ml.in + ocaml/c05_driver.ml (hex interchange) and harness/kvfmt",
 ]
 ASSUMPTIONS = [
@@ -160,7 +161,7 @@ def run_cases(ctx, n, big):
     gobin = L.go_build("c05")
     model = L.ocaml_build("c05")
     rc, out, err, dt = L.sh([gobin, "-seed", str(ctx.seed), "-n", str(n), "-big", str(big),
-                             "-pg", str(ctx.scale(40, 150)), "-bigrd", str(ctx.scale(1, 2)), "-pgr", str(ctx.scale(30, 150))], timeout=3000)
+                             "-pg", str(ctx.scale(40, 150)), "-bigrd", str(ctx.scale(1, 2)), "-pgr", str(ctx.scale(30, 150)), "-cc", str(ctx.scale(4, 12))], timeout=3000)
     if rc != 0:
         raise L.Fail("correspondence", "harness cmd/c05 crashed", (out[-1500:] + err[-2500:]))
     cases = L.parse_cases(out)
@@ -213,6 +214,8 @@ def correspondence(ctx):
                      "wc (Conn.WriteCompressedMessages over an in-memory pipe, produce v2/v7) x codecs none/gzip/snappy/lz4/zstd on record lists "
                      "(0..60 records, null/empty/non-empty keys and values up to 2 KB, values > 64 KiB with -big, 0..3 headers, whole-ms / sub-ms / "
                      "decreasing / > 2^31 ms apart times), compared byte-exact with the extracted model and decoded by the harness' independent codec; "
+                     "concurrent producers: rounds of 2..4 Conns (WriteCompressedMessages, produce v2/v7, every codec, incompressible values below/above 4 KiB) whose scripted peers pause after 8/100/4096/4097 bytes of the produce request "
+                     "and then read in small pieces (nested: each producer parked mid-flush while the next ones run; free: all at once), and 3..10 goroutines encoding RecordSet.WriteTo v1/v2 at the same time, under GOMAXPROCS 1, 2, 8, emitted as wc/wp cases; "
                      "readers rd: reference-encoded sequences of 1..4 items (v0, v1, v1 wrappers per codec, v2 per codec, control, transactional, "
                      "offset gaps, compacted wrappers, corrupted CRCs, min inside the first item) through RecordSet.ReadFrom and messageSetReader, "
                      "plus in EVERY run the page-boundary suite: keyed v0/v1 messages, v0/v1 wrappers (every codec, many small or few page-spanning inner messages, "
